@@ -266,3 +266,44 @@ Qed.
 (* the lookahead of updateSalt is the 5 minutes of the property *)
 Lemma deadline_5min now : deadline now = (now + 300 * 1000000000) / 1000000000.
 Proof. reflexivity. Qed.
+
+(* ---------- Invoke with an environment between the two sends ---------- *)
+Lemma update_salt_nostore now st : salts st = [] -> update_salt now st = st.
+Proof. destruct st as [c s l]. simpl. intros ->. reflexivity. Qed.
+
+Lemma quiet_run env : forall st,
+  salts st = [] -> forallb quiet env = true -> run_state st env = st.
+Proof.
+  induction env as [|o t IH]; intros st E Q; simpl in *; [reflexivity|].
+  apply andb_true_iff in Q. destruct Q as (Q1 & Q2).
+  destruct o; simpl in Q1; try discriminate; simpl.
+  - (* OReset *) destruct st as [c s l]. simpl in *. subst. apply IH; [reflexivity|exact Q2].
+  - (* OAttach *) rewrite update_salt_nostore by exact E. apply IH; assumption.
+Qed.
+
+Theorem invoke_retry_env st now1 ns env now2 r2 :
+  let st2 := {| cur := ns; cur_src := Told; salts := [] |} in
+  let '(sends, out, st') := invoke_env st now1 (DoBad c_codeIncorrectServerSalt ns) env now2 r2 in
+  exists s2, sends = [cur (update_salt now1 st); s2] /\ out = ret_of r2 /\ s2 = cur st' /\
+    attach_ok (run_state st2 env) now2 st' /\
+    (forall x, In x (salts (run_state st2 env)) -> announced env x) /\
+    (forallb quiet env = true -> s2 = ns /\ cur_src st' = Told).
+Proof.
+  cbv zeta. unfold invoke_env, invoke_retries_go. cbn [andb]. rewrite Z.eqb_refl.
+  eexists. split; [reflexivity|]. split; [reflexivity|]. split; [reflexivity|].
+  split; [apply update_salt_ok|]. split.
+  - apply store_announced. simpl. tauto.
+  - intros Q. rewrite quiet_run by (try reflexivity; exact Q). rewrite update_salt_empty. simpl. auto.
+Qed.
+
+(* ---------- the literal reading of "never a salt already expired" is refuted ---------- *)
+Lemma expired_salt_kept :
+  let pre := [OStore [(1000, 11)]; OAttach 100000000000; OAttach 900000000000] in
+  let now := 1100000000000 in
+  let st' := fst (step (run_state (init 5) pre) (OAttach now)) in
+  snd (step (run_state (init 5) pre) (OAttach now)) = Some 11 /\ cur_src st' = Future 1000 /\ 1000 * 1000000000 <= now.
+Proof. vm_compute. repeat split; discriminate. Qed.
+
+(* the second copy of the retry condition (bindTempAuthKeyAttempt) is the same decision *)
+Lemma bind_same_condition b code : bind_retries_go b code = invoke_retries_go b code.
+Proof. reflexivity. Qed.
